@@ -28,6 +28,9 @@ def gen_world(rng, profile=None):
     profile = profile or {}
     delta = profile.get('delta') or rng.choice(profile.get('deltas') or DELTAS)
     t0 = rng.choice([0, 3600 * 7, 86400 - 120, 86400 * 2 + 5]) + rng.randint(0, 600)
+    # a run that starts at time 0 exactly (SimTime(0) is falsy: enqueue / dispatch / departure times of 0).  Own stream.
+    if random.Random(f'time-zero|{t0}|{delta}').random() < 0.08:
+        t0 = 0
     n_clusters = rng.randint(2, 4)
     per_cluster = rng.randint(1, 3)
     if profile.get('clusters'):
